@@ -63,7 +63,7 @@ OPTIONAL = {b"Origin": b"http://good.com", b"Sec-WebSocket-Protocol": b"a, b",
             b"Sec-WebSocket-Extensions": b"permessage-deflate", b"User-Agent": b"x",
             b"Sec-WebSocket-Origin": b"http://good.com"}
 
-VERSIONS = [b"0", b"7", b"8", b"13", b"14", b"13 ", b" 13", b"+13", b"1_3", b"013", b"-13", b"13.0", b"1 3", b"", b"0x0d",
+VERSIONS = [b"0", b"7", b"8", b"13", b"14", b"199", b"249", b"250", b"299", b"1000", b"008", b"13 ", b" 13", b"+13", b"1_3", b"013", b"-13", b"13.0", b"1 3", b"", b"0x0d",
             b"255", b"256", b"08", b"+8", b"\xb2", b"13\xa0", b"13\x1f", b"1__3", b"_13", b"13_", b"\xd9\xa1\xd9\xa3",
             b"13,13", b"13;", b"9" * 30, b"0" * 4400 + b"13", b"13\x00"]
 
@@ -129,6 +129,21 @@ HTTPVERS = [b"HTTP/1.0", b"HTTP/2", b"http/1.1", b"HTTP/1.1.1", b"HTTP/1.10", b"
             b"HTTP/1.1/", b"HTTP/1.1\xa0", b"", b"HTTP/1,1"]
 NONASCII = [b"\xe9", b"\xff", b"\xc3\xa9", b"\x80", b"\xc0\xaf", b"\xed\xa0\x80", b"\xf4\x90\x80\x80", b"\x85", b"\xa0", b"\x00", b"\x1c", b"\x0b",
             b"\x0c", b"\r", b"\n", b"\x7f"]
+
+
+def numeral_sweep(tier, status=False):
+    """all strings of length 1..3 over digits that exercise the boundaries 0-9 / 10-99 / 100-199 / 200-249 / 250-255 (resp. the
+    three-digit status code) and the characters int() tolerates ('+', '_', leading zero; thorough: '-', superscript two, all digits)"""
+    alph = b"0125+_" + (b"69" if not status else b"") if tier == "quick" else b"0123456789+_-\xb2"
+    out, cur = [], [b""]
+    for _ in range(3):
+        cur = [s + bytes([a]) for s in cur for a in alph]
+        out += cur
+    if status:
+        out += [b"0101", b"1010", b"1011", b"+101", b"101_", b"1_01", b"10_1", b"_101"]
+    else:
+        out += [b"0013", b"1300", b"2550", b"0255", b"+255", b"25_5"]
+    return sorted(set(out))
 
 
 def srv_cfg(**kw):
@@ -210,6 +225,10 @@ def server_cases(rng, tier):
     for v in VERSIONS:
         for vs in ([8, 13], [13], [8]):
             add("version:%s/%s" % (v.decode("latin-1")[:20], vs), base.copy().set(b"Sec-WebSocket-Version", v), srv_cfg(versions=vs))
+    # every numeral-like string of length <= 3 (RFC 6455 version = 0..255, no sign / leading zero / separator); fed whole only
+    for v in numeral_sweep(tier):
+        add("version-sweep:%s" % v.decode("latin-1"), base.copy().set(b"Sec-WebSocket-Version", v), srv_cfg(versions=[8, 13]))
+        out[-1]["variants"] = ("whole",)
     for v in KEYS:
         add("key:" + v.decode("latin-1"), base.copy().set(b"Sec-WebSocket-Key", v))
     for v in PROTOCOLS:
@@ -383,6 +402,10 @@ def client_cases(rng, tier):
         r = base.copy(); r.method = v; add("httpver:" + v.decode("latin-1"), r)
     for s in STATUS:
         r = base.copy(); r.uri = s; add("status:" + s.decode("latin-1"), r)
+    # every numeral-like status code token of length <= 3 (plus some of length 4); fed whole only
+    for v in numeral_sweep(tier, status=True):
+        r = base.copy(); r.uri = v; add("status-sweep:" + v.decode("latin-1"), r)
+        out[-1]["variants"] = ("whole",)
     for reason in (b"", b"X", b"Switching  Protocols", b"\xc3\xa9", b"\xe9", b"\xff", b"\xed\xa0\x80", b"\xf0\x9f\x98\x80", b"\xc0\x80", b"a\x00b"):
         r = base.copy(); r.ver = reason; add("reason:%r" % reason, r)
     r = base.copy(); r.uri = b""; r.ver = b""; r.sep1 = r.sep2 = b""; add("line:1part", r)
